@@ -113,6 +113,15 @@ func checkCmd(args []string) int {
 		}
 		cr.CheckResponses(entries)
 		return cr.Finish("proof", checkerCmd, commonTrusted, "per operation: sealing (go/types method sets), and for every type satisfying the response interface the Write / write<Op> contracts of the documented response it serves (header view, body view of the event trace), all response values")
+	case "C09":
+		entries := vc.FixtureCorpus(*repo, "params", "get_params", "get_query_array", "components_params", "request_body", "path_parameters")
+		entries = append(entries, vc.ParamCorpus(corpusDir)...)
+		if *tier != "quick" {
+			entries = vc.FixtureCorpus(*repo)
+			entries = append(entries, vc.ParamCorpus(corpusDir)...)
+		}
+		cr.CheckClients(entries)
+		return cr.Finish("proof", checkerCmd, commonTrusted, "inline assertions at the NewRequest and Do calls of every Client.<Op> (method, URL term, query map content, header operations) against the reference request assembly; the server half is C04/C05; the formatter/parser inverse pairs are the wire axioms")
 	case "C10":
 		entries := vc.FixtureCorpus(*repo, "response_component", "response_header", "response_default", "response_schema", "octet_stream", "components", "petstore")
 		entries = append(entries, vc.ResponseCorpus(corpusDir)...)
